@@ -18,7 +18,8 @@ SPEC = dict(
         text='Lean proves, for EVERY validator list, signature list (any length, order, multiset) and block id, with SHA-256 and Ed25519 '
              'verification as arbitrary functions, that the model of check_block_signatures returns iff every entry names a validator of '
              'the set whose key verifies it over 706e0bc5||root_hash||file_hash, the signer ids are pairwise distinct and 3*signed > 2*total '
-             '(c12_accept_iff); separate corollaries give rejection of invalid / unknown / duplicated signers, of the empty set and of exactly '
+             '(c12_accept_iff; for sets with distinct node ids the weight is shown to be the combined weight of the DISTINCT members who signed, '
+             'c12_accept_iff_members); separate corollaries give rejection of invalid / unknown / duplicated signers, of the empty set and of exactly '
              '2/3, acceptance of every list meeting the condition, and order independence. The model is tied to the code by differential '
              'correspondence on real Ed25519 scenarios (sets of 1..100, weights 1/equal/skewed/2^63, thresholds at 2/3 +-1 unit, all fault kinds).',
         level_note='Trusted: Lean kernel (propext, Classical.choice, Quot.sound); Model/Sig.lean as a faithful hand transcription of '
